@@ -383,4 +383,62 @@ theorem step_deltaM (c : Cfg) (s s' : State) (a : Action) (hv : c.Valid) (hm : c
         subst heq
         exact hp.inf e0 he0 r' hr'
 
+theorem prime_pos (c : Cfg) (n : Nat) (s : State) (hv : c.Valid) (hm : c.iterable = false) (hio : c.inOrder = true)
+    (h : MidM c s) (hp : PosM c s) : PosM c (prime c n s) := by
+  induction n generalizing s with
+  | zero => exact hp
+  | succ n ih =>
+    unfold prime
+    exact ih _ (MidM_tryPut c s hv hm hio h).1 (tryPut_pos c s hv hm hio h hp)
+
+theorem init_deltaM (c : Cfg) (hv : c.Valid) (hm : c.iterable = false) (hio : c.inOrder = true) :
+    DeltaM c (init c) := by
+  unfold init resetTail
+  generalize hs0 : ({ resetHead c _ with mainSnaps := [], lastW := c.W - 1, snap := _ } : State) = s0
+  have hmid0 : MidM c s0 := by
+    subst hs0
+    refine ⟨rfl, rfl, Nat.zero_le _, by simp [resetHead], rfl, trivial, by simp [resetHead], ?_, ?_⟩
+    · intro w k hk m hmem
+      simp only [resetHead, List.getElem?_replicate] at hk
+      split at hk
+      · cases hk; simp at hmem
+      · cases hk
+    · intro r hr; simp [resetHead] at hr
+  have hpos0 : PosM c s0 := by
+    subst hs0
+    refine ⟨?_, ?_, ?_⟩
+    · intro w k hk
+      simp only [resetHead, List.getElem?_replicate] at hk
+      split at hk
+      · rename_i hw
+        cases hk
+        simp only [taskIdxs, MQ, resetHead, List.length_nil, Nat.add_zero, Nat.mul_zero, Nat.zero_add]
+        exact ⟨trivial, Nat.zero_le _, hw, fun m hm' => (by cases hm'), trivial⟩
+      · cases hk
+    · intro r hr; simp [resetHead] at hr
+    · intro e he; simp [resetHead] at he
+  have hc := prime_sameCore c (c.P * c.W) s0
+  have e1 : s0.rcvdIdx = 0 := by subst hs0; rfl
+  have e2 : s0.wsnaps = List.replicate c.W ⟨0, false⟩ := by subst hs0; rfl
+  exact ⟨fun _ => prime_pos c _ s0 hv hm hio hmid0 hpos0, by rw [hc.wsnaps, hc.rcvdIdx, e1, e2]; rfl⟩
+
+theorem run_deltaM (c : Cfg) (as : List Action) (s s' : State) (hv : c.Valid) (hm : c.iterable = false)
+    (hio : c.inOrder = true) (hnr : NoReset as) (h : (InvM c s ∧ DeltaM c s) ∨ died s) (hr : run c s as = some s') :
+    (InvM c s' ∧ DeltaM c s') ∨ died s' := by
+  induction as generalizing s with
+  | nil => simp only [run] at hr; cases hr; exact h
+  | cons a as ih =>
+    simp only [run] at hr
+    split at hr
+    · cases hr
+    · rename_i s1 hs1
+      refine ih s1 hnr.2 ?_ hr
+      rcases h with ⟨h1, h2⟩ | h
+      · rcases step_invM c s s1 a hv hm hio hnr.1 h1 hs1 with h3 | h3
+        · rcases step_deltaM c s s1 a hv hm hio hnr.1 h1 h2 hs1 with h4 | h4
+          · exact Or.inl ⟨h3, h4⟩
+          · exact Or.inr h4
+        · exact Or.inr h3
+      · exact Or.inr (died_step c s s1 a hs1 h)
+
 end TDV.MP
